@@ -281,3 +281,150 @@ func TestC19Large(t *testing.T) {
 func TestC19Regress(t *testing.T) { hx.Regress(t, hC19, "TestC19", propC19) }
 
 func TestC19(t *testing.T) { hx.Check(t, hC19, "TestC19", genC19, propC19) }
+
+// ---------------------------------------------------------------------------
+// A Stream that closes the Reassembler from inside a callback (a consumer that shuts down on a condition it
+// sees in the data). Close delivers every buffered event once, in order — also then: at the end of the call
+// during which Close ran, every record pushed so far has been delivered exactly once (by the interrupted call
+// or by Close), the events Close itself delivered are in window order, and afterwards Maintain and Close fail
+// and deliver nothing.
+
+func genC19StreamCloses(t *rapid.T) History {
+	if rapid.IntRange(0, 3).Draw(t, "mixed") == 0 {
+		h := genC19(t)
+		h.Reenter = "close"
+		return h
+	}
+	// an incomplete head event holds back k complete events; j incomplete younger ones are buffered behind
+	// them; then the head is completed (or the buffer overflows, or time runs out): the call that delivers the
+	// head and the k complete events is interrupted by Close, which has the j younger ones to flush
+	h := History{Windowed: true, Reenter: "close", Base: rapid.SampledFrom(baseChoices).Draw(t, "base")}
+	k, j := rapid.IntRange(0, 6).Draw(t, "complete"), rapid.IntRange(0, 6).Draw(t, "incomplete")
+	h.MaxInFlight = k + j + 1 + rapid.IntRange(0, 2).Draw(t, "slack")
+	h.TimeoutNs = int64(rapid.SampledFrom([]time.Duration{time.Hour, time.Hour, 2 * time.Millisecond}).Draw(t, "timeout"))
+	seq := uint32(0)
+	push := func(typ uint16) { h.Ops = append(h.Ops, Op{K: opPush, Seq: h.Base + seq, Typ: typ}) }
+	push(1300)
+	for i := 0; i < k; i++ {
+		seq += rapid.Uint32Range(1, 2).Draw(t, "step")
+		push(1300)
+		push(rapid.SampledFrom([]uint16{eoe, 1327, eoe}).Draw(t, "end"))
+	}
+	for i := 0; i < j; i++ {
+		seq += rapid.Uint32Range(1, 2).Draw(t, "step")
+		push(1300)
+		if rapid.Bool().Draw(t, "second") {
+			push(1307)
+		}
+	}
+	switch rapid.IntRange(0, 3).Draw(t, "trigger") {
+	case 0, 1:
+		h.Ops = append(h.Ops, Op{K: opPush, Seq: h.Base, Typ: eoe})
+	case 2:
+		for i := 0; i < 3; i++ { // overflow
+			seq++
+			push(1300)
+		}
+	default:
+		if h.TimeoutNs < int64(time.Second) {
+			h.Ops = append(h.Ops, Op{K: opSleep, SleepUs: 5000}, Op{K: opMaintain})
+		} else {
+			h.Ops = append(h.Ops, Op{K: opPush, Seq: h.Base, Typ: 1327})
+		}
+	}
+	h.Ops = append(h.Ops, Op{K: opMaintain}, Op{K: opClose})
+	return h
+}
+
+func propC19StreamCloses(h History) error {
+	tr := exec(h)
+	if !tr.Created {
+		return fmt.Errorf("NewReassembler failed: %v", tr.NewErr)
+	}
+	delivered := map[int]int{}
+	closedAt, nestedCloses := -1, 0
+	interruptedLeft, flushed := 0, 0
+	for i, o := range h.Ops {
+		st := &tr.Steps[i]
+		if closedAt >= 0 {
+			if o.K == opMaintain || o.K == opClose {
+				if st.Err == nil {
+					return fmt.Errorf("op %d: %s after the Stream closed the Reassembler (op %d) returned nil", i, o.K, closedAt)
+				}
+				if len(st.CBs) != 0 {
+					return fmt.Errorf("op %d: %s after Close triggered %d callbacks", i, o.K, len(st.CBs))
+				}
+			}
+			continue
+		}
+		inClose, first := false, o.K != opClose // the history's own Close comes first: Close calls made during its flush fail
+		var closeSeqs []uint32
+		for _, cb := range st.CBs {
+			switch {
+			case cb.NestedClose == "begin":
+				inClose = true
+			case cb.NestedClose == "end":
+				inClose = false
+				nestedCloses++
+				if first && cb.NestedErr != nil {
+					return fmt.Errorf("op %d: the first Close (made by the Stream from inside a callback) returned %v", i, cb.NestedErr)
+				}
+				if !first && cb.NestedErr == nil {
+					return fmt.Errorf("op %d: a second Close (made by the Stream from inside a later callback) returned nil", i)
+				}
+				first = false
+				closedAt = i
+			case cb.IsEv:
+				for k, id := range cb.IDs {
+					if id < 0 || id >= len(h.Ops) || !isPush(h.Ops[id]) {
+						return fmt.Errorf("op %d: delivered a message that was never pushed (seq %d type %d)", i, cb.Seqs[k], cb.Typs[k])
+					}
+					delivered[id]++
+				}
+				if inClose && len(cb.Seqs) > 0 {
+					closeSeqs = append(closeSeqs, cb.Seqs[0])
+				} else if closedAt == i {
+					interruptedLeft++
+				}
+			}
+		}
+		if o.K == opClose {
+			closedAt = i
+			if st.Err != nil {
+				return fmt.Errorf("op %d: first Close returned %v", i, st.Err)
+			}
+		}
+		if closedAt == i {
+			for k := 1; k < len(closeSeqs); k++ {
+				if h.off(closeSeqs[k]) <= h.off(closeSeqs[k-1]) {
+					return fmt.Errorf("op %d: Close (made by the Stream during this call) delivered events in the order %v", i, closeSeqs)
+				}
+			}
+			flushed = len(closeSeqs)
+			for id := 0; id <= i; id++ {
+				if !isPush(h.Ops[id]) || h.Ops[id].Typ == eoe {
+					continue
+				}
+				if n := delivered[id]; n != 1 {
+					return fmt.Errorf("op %d (%s): Close ran during this call (made by the Stream from inside its first callback); afterwards the record pushed by op %d (seq %d type %d) has been delivered %d times, want exactly once", i, o.K, id, h.Ops[id].Seq, h.Ops[id].Typ, n)
+				}
+			}
+		}
+	}
+	if nestedCloses > 0 {
+		hC19.Class("stream-closes-from-callback")
+	}
+	if flushed >= 2 && interruptedLeft >= 1 {
+		hC19.Class("stream-closes-while-call-has-more-to-deliver-and-2-events-are-buffered")
+		hC19.NonTrivial(fpHistory(h), h.Describe)
+	}
+	return nil
+}
+
+func TestC19StreamClosesRegress(t *testing.T) {
+	hx.Regress(t, hC19, "TestC19StreamCloses", propC19StreamCloses)
+}
+
+func TestC19StreamCloses(t *testing.T) {
+	hx.Check(t, hC19, "TestC19StreamCloses", genC19StreamCloses, propC19StreamCloses)
+}
